@@ -193,7 +193,7 @@ def defaults(cell):
 
 # ---------------------------------------------------------------------------------------------------------------------
 # global default-step histories, explored to closure against a dictionary model
-HOPS = ['set_quarter_ft', 'set_1m', 'set_0', 'set_neg', 'set_bare_half_yd', 'reset', 'create', 'create_override', 'drop_oldest']
+HOPS = ['set_quarter_ft', 'set_1m', 'set_0', 'set_neg', 'set_bare_half_yd', 'reset', 'create', 'create_override', 'drop_oldest', 'load_metric', 'load_imperial']
 METER_FT = 1000 / 25.4 / 12
 
 
@@ -232,8 +232,8 @@ def history(cell):
                 pb.set_global_max_calc_step_size(U.Meter(1))
                 g = U.Meter(1) >> U.Foot
             elif op == 'set_bare_half_yd':
-                pb.set_global_max_calc_step_size(0.5)     # bare number in the preferred distance unit (yard)
-                g = U.Yard(0.5) >> U.Foot
+                pb.set_global_max_calc_step_size(0.5)     # bare number in the preferred distance unit (yard unless a preset changed it)
+                g = pb.PreferredUnits.distance(0.5) >> U.Foot
             elif op in ('set_0', 'set_neg'):
                 try:
                     pb.set_global_max_calc_step_size(U.Foot(0) if op == 'set_0' else -1)
@@ -243,6 +243,9 @@ def history(cell):
             elif op == 'reset':
                 pb.reset_globals()
                 g = 0.5
+            elif op in ('load_metric', 'load_imperial'):
+                # a unit preset chooses display / bare-number units; the default step is none of its business
+                (pb.loadMetricUnits if op == 'load_metric' else pb.loadImperialUnits)()
             elif op == 'create':
                 live.append((pb.Calculator(), g))
             elif op == 'create_override':
@@ -555,6 +558,39 @@ def cap(cell):
     return {'v': out, 'n': 1, 'nt': cell, 'states': 1, 'transitions': 1, 'traces': 1}
 
 
+def basic(cell):
+    """basicConfig with keywords: the preferred units given are set, the step given becomes the default step of calculators created afterwards -
+    each alone and both together; nothing else changes"""
+    import py_ballisticcalc as pb
+    from py_ballisticcalc.unit import Unit, PreferredUnits
+    units, step = cell
+    PreferredUnits.defaults()
+    pb.reset_globals()
+    pb.set_global_max_calc_step_size(Unit.Foot(0.4))
+    before = {s_: getattr(PreferredUnits, s_) for s_ in PreferredUnits.__dataclass_fields__}
+    kw = {}
+    if units:
+        kw['preferred_units'] = dict(units)
+    if step is not None:
+        kw['max_calc_step_size'] = Unit[step[1]](step[0])
+    out = []
+    try:
+        pb.basicConfig(**kw)
+        for s_, v in before.items():
+            want = Unit[units[s_]] if units and s_ in units else v
+            if getattr(PreferredUnits, s_) != want:
+                out.append({'msg': f'basicConfig({kw}): preferred {s_} is {getattr(PreferredUnits, s_)!r}, expected {want!r}', 'key': None})
+        want_step = (Unit[step[1]](step[0]) >> Unit.Foot) if step is not None else 0.4
+        got_step = pb.Calculator()._calc._config.max_calc_step_size_feet
+        got_g = pb.get_global_max_calc_step_size() >> Unit.Foot
+        if abs(got_step - want_step) > 1e-12 or abs(got_g - want_step) > 1e-12:
+            out.append({'msg': f'basicConfig({kw}) after a global step of 0.4 ft: calculators created afterwards step {got_step!r} ft, the getter says {got_g!r} ft, expected {want_step!r} ft', 'key': None})
+    finally:
+        PreferredUnits.defaults()
+        pb.reset_globals()
+    return {'v': out[:3], 'n': 2, 'nt': cell, 'states': 1, 'transitions': 2, 'traces': 1}
+
+
 def golden_aliases(cell):
     """the alias table documents itself - so a slip IN the table (two aliases fused by a missing comma, an alias dropped) is invisible to a check that
     reads the table from the tree under test. Every alias the table had at the pinned commit must still resolve to the same unit."""
@@ -592,7 +628,7 @@ def golden_aliases(cell):
     return {'v': out, 'n': n, 'nt': 'golden', 'states': n, 'transitions': n, 'traces': n}
 
 
-PARTS = {'subset': subset, 'defaults': defaults, 'history': history, 'advance': advance, 'names': names, 'unknown': unknown, 'golden_aliases': golden_aliases, 'cap': cap}
+PARTS = {'subset': subset, 'defaults': defaults, 'history': history, 'advance': advance, 'names': names, 'unknown': unknown, 'golden_aliases': golden_aliases, 'cap': cap, 'basic': basic}
 
 
 def plan(tier):
@@ -605,7 +641,9 @@ def plan(tier):
     # small and large configured steps on fast and slow projectiles (the step must follow the setting over its whole range)
     adv += [[n, ms] for n in ('flat', 'hot', 'tail30', 'slow', 'pellet') for ms in ((0.02, 2.0) if tier == 'quick' else (0.05, 0.02, 0.005, 2.0, 5.0))]
     return [('subset', subs), ('defaults', ['Yard', 'Meter', 'Inch']), ('history', [2 if tier == 'quick' else 3]), ('advance', adv),
-            ('names', nm), ('unknown', UNKNOWN), ('golden_aliases', [0]), ('cap', [[k, lk] for k in (1, 2, 3, 5, 8) for lk in (0.0, 10.0)])]
+            ('names', nm), ('unknown', UNKNOWN), ('golden_aliases', [0]), ('cap', [[k, lk] for k in (1, 2, 3, 5, 8) for lk in (0.0, 10.0)]),
+            ('basic', [[u_, st_] for u_ in (None, {'distance': 'Meter'}, {'velocity': 'MPS', 'sight_height': 'Centimeter'}) for st_ in (None, [0.3, 'Foot'], [0.1, 'Meter'])
+                       if u_ or st_])]
 
 
 def name_table_static():
